@@ -170,6 +170,22 @@ Definition conv_gray_bin (a : crow) (c : Z) : Z := bin_of_bool (luma_of a c >=? 
 Definition conv_rgb_bin (a : crow) (c : Z) : Z :=
   bin_of_bool (luma888 (into_or conv_rgb_rgb a via_rgb c) >=? rgb_bin_threshold).
 
+(* rgb_color.rs:151-158  the eight named constants of RgbColor, in source order:
+   BLACK RED GREEN BLUE YELLOW MAGENTA CYAN WHITE *)
+Definition named_colors (t : crow) : list Z :=
+  [rgb_new t 0 0 0; rgb_new t (max_r t) 0 0; rgb_new t 0 (max_g t) 0; rgb_new t 0 0 (max_b t);
+   rgb_new t (max_r t) (max_g t) 0; rgb_new t (max_r t) 0 (max_b t); rgb_new t 0 (max_g t) (max_b t);
+   rgb_new t (max_r t) (max_g t) (max_b t)].
+(* conversion.rs:45-54  with_rgb888(r, g, b): 8 bit channels scaled to the type (web_src = Rgb888);
+   web_colors.rs:50-62  every CSS_* constant of a WebColors type is with_rgb888 of its triple *)
+Definition with_rgb888 (t : crow) (r g b : Z) : Z :=
+  rgb_new t (convert_channel (max_r web_src) (max_r t) r)
+            (convert_channel (max_g web_src) (max_g t) g)
+            (convert_channel (max_b web_src) (max_b t) b).
+Definition has_web_colors (t : crow) : bool := existsb (fun w => c_id w =? c_id t) web_types.
+Definition web_color_values (t : crow) : list Z :=
+  map (fun e => match snd e with (r, g, b) => with_rgb888 t r g b end) web_colors.
+
 Definition convert (f : family) (a b : crow) (c : Z) : Z :=
   match f with
   | FRgbRgb => conv_rgb_rgb a b c
